@@ -721,4 +721,81 @@ theorem goodRen_finalTable (o : Opts) (m : ModelP) (h : straightModel o m = true
     exact pyT_inj hT hae hbe (hpres a ha) (hpres b hb) hab
 
 
+
+/-! ## initializers -/
+
+
+theorem nodesLoop_append (f : Node → St → R) : ∀ (a b : List Node) (st : St),
+    nodesLoop f (a ++ b) st =
+      match nodesLoop f a st with
+      | .error e => .error e
+      | .ok (l1, st1) =>
+        match nodesLoop f b st1 with
+        | .error e => .error e
+        | .ok (l2, st2) => .ok (l1 ++ l2, st2)
+  | [], b, st => by
+    simp only [List.nil_append, nodesLoop]
+    cases nodesLoop f b st with
+    | error e => rfl
+    | ok r => simp
+  | n :: a, b, st => by
+    simp only [List.cons_append, nodesLoop]
+    cases f n st with
+    | error e => rfl
+    | ok r =>
+      obtain ⟨l0, st0⟩ := r
+      simp only [nodesLoop_append f a b st0]
+      cases nodesLoop f a st0 with
+      | error e => rfl
+      | ok r1 =>
+        obtain ⟨l1, st1⟩ := r1
+        simp only
+        cases nodesLoop f b st1 with
+        | error e => rfl
+        | ok r2 => simp [List.append_assoc]
+
+theorem initsLoop_eq_nodesLoop (o : Opts) (rec : Node → St → R) :
+    ∀ (inits : List (String × Nat × Nat × List Nat × Bool × String)) (st : St),
+      inits.all (fun i => !(o.skipInit && i.2.1 > 4)) = true →
+      initsLoop o rec inits st = nodesLoop rec (inits.map initNode) st
+  | [], st, _ => rfl
+  | (name, size, dtype, dims, finite, lit) :: rest, st, h => by
+    simp only [List.all_cons, Bool.and_eq_true, Bool.not_eq_true'] at h
+    have h1 : (o.skipInit && decide (size > 4)) = false := h.1
+    simp only [initsLoop, h1, Bool.false_eq_true, if_false, List.map_cons, nodesLoop, initNode]
+    cases rec (Node.mk "Constant" "" "" [] [name] [("value", Attr.tensor dtype dims finite lit)]) st with
+    | error e => rfl
+    | ok r =>
+      obtain ⟨l1, st1⟩ := r
+      simp only [initsLoop_eq_nodesLoop o rec rest st1 h.2]
+
+/-- **Initializers that are not skipped are translated exactly like leading `Constant` nodes.** -/
+theorem graphBody_unfoldInits (o : Opts) (rec : Node → St → R) (g : Graph) (st : St)
+    (h : noneSkipped o g = true) (hs : g.nSparse = 0) :
+    graphBody o rec g st = graphBody o rec (initsAsNodes g) st := by
+  cases g with
+  | mk gi go inits sp nodes =>
+    simp only [noneSkipped, Graph.inits, Graph.nSparse] at h hs
+    subst hs
+    simp only [graphBody, initsAsNodes, Graph.inits, Graph.nSparse, Graph.nodes, initsLoop, Nat.lt_irrefl, gt_iff_lt,
+      if_false, List.nil_append, initsLoop_eq_nodesLoop o rec inits st h, nodesLoop_append]
+    cases nodesLoop rec (inits.map initNode) st with
+    | error e => rfl
+    | ok r =>
+      obtain ⟨l1, st1⟩ := r
+      simp only
+      cases nodesLoop rec nodes st1 with
+      | error e => rfl
+      | ok r2 => rfl
+
+theorem exportModel_unfoldInits (o : Opts) (d : Nat) (m : ModelP)
+    (h : noneSkipped o m.graph = true) (hs : m.graph.nSparse = 0) :
+    exportModel o d m = exportModel o d m.unfoldInits := by
+  have hb : ∀ rec st, graphBody o rec m.graph st = graphBody o rec (initsAsNodes m.graph) st :=
+    fun rec st => graphBody_unfoldInits o rec m.graph st h hs
+  unfold exportModel translateGraph graphProg
+  simp only [ModelP.unfoldInits, ModelP.funName, hb]
+  rfl
+
+
 end OV.C13
